@@ -498,6 +498,8 @@ class Endpoint:
 
     def _reset_io(self):
         self.udp_in = collections.defaultdict(collections.deque)
+        self.keep_unread = False     # set by workloads that put several events into one loop turn
+        self.unread_after_step = 0
         self.udp_socks, self.ctl_sock = [], None
         self.outbox = []
         self.control_pending = 0
@@ -534,17 +536,20 @@ class Endpoint:
         sim = self.sim
         rec = StepRecord()
         rec.ep, rec.kind, rec.vtime = self.name, kind, W.clock.t
-        rec.input = udp or xfrm_event
+        # several events may be ready in ONE loop turn: udp / xfrm_event may be lists (served in the order the loop itself chooses)
+        udps = udp if isinstance(udp, list) else ([udp] if udp is not None else [])
+        evs = xfrm_event if isinstance(xfrm_event, list) else ([xfrm_event] if xfrm_event is not None else [])
+        rec.input = udps[0] if udps else (evs[0] if evs else None)
         rec.before = self.snapshot()
         self.udp_socks, self.ctl_sock = [], None
         self.outbox = []
         self.select_calls = 0
         self.step_faults = []
-        if udp is not None:
-            src, dst, data = udp
+        for (src, dst, data) in udps:
             self.udp_in[ipaddress.ip_address(dst)].append((data, ipaddress.ip_address(src)))
-        if xfrm_event is not None:
-            self.kernel.events.append(xfrm_event)
+        for ev_ in evs:
+            self.kernel.events.append(ev_)
+        udp = udps[0] if len(udps) == 1 and not evs else (udp if not isinstance(udp, list) else None)
         if control:
             self.control_pending += 1
         self.step_nl, self.step_routed, self.step_state_errors = [], [], []
@@ -580,11 +585,15 @@ class Endpoint:
         self.step_nl = self.step_routed = self.step_state_errors = self.step_internal = None
         self.step_escapes = self.step_dh = None
         W.handler_log = None
-        # anything left unread (e.g. the loop died before reading) is discarded like a crashed daemon would
-        for q in self.udp_in.values():
-            q.clear()
-        self.kernel.events.clear()
+        # what a DEAD loop left unread is discarded like a crashed daemon would; a live loop finds it still waiting in its sockets on the next turn
+        # (a turn that raised while serving an earlier socket has not read the later ones yet)
+        rec_unread = sum(len(q) for q in self.udp_in.values()) + len(self.kernel.events)
+        if rec.died or not self.keep_unread:
+            for q in self.udp_in.values():
+                q.clear()
+            self.kernel.events.clear()
         self.control_pending = 0
+        self.unread_after_step = rec_unread
         rec.after = self.snapshot()
         rec.seq = sim.seq
         sim.seq += 1
